@@ -223,3 +223,23 @@ Proof.
   unfold sset. cbn [vars scopes sparent sfunc sdeclared sundeclared nfordecls nfuncargs narguses].
   rewrite list_set_last. reflexivity.
 Qed.
+
+(* the mark after a catch parameter, on a scope just entered (catch { } without parameter): nothing changes *)
+Lemma catch_mark_noop p :
+  match enter_scope p false with
+  | Ok p1 => pstep p1 EMarkCatch = Running p1
+  | _ => True
+  end.
+Proof.
+  unfold enter_scope. destruct p as [[vs scs] cur log]. cbn [pst pcur plog scopes vars].
+  destruct cur as [q|]; cbn [rbind].
+  - unfold sget. cbn [scopes]. destruct (nth_error scs q) as [psc|]; [|exact I]. cbn [rbind salloc fst].
+    cbn [pstep pcur pst plog]. unfold mark_catch, sget. cbn [scopes].
+    rewrite nth_error_app2 by lia. rewrite Nat.sub_diag. cbn [nth_error rbind of_res].
+    unfold sset. cbn [vars scopes sparent sfunc sdeclared sundeclared nfordecls nfuncargs narguses].
+    rewrite list_set_last. reflexivity.
+  - cbn [salloc fst pstep pcur pst plog]. unfold mark_catch, sget. cbn [scopes].
+    rewrite nth_error_app2 by lia. rewrite Nat.sub_diag. cbn [nth_error rbind of_res].
+    unfold sset. cbn [vars scopes sparent sfunc sdeclared sundeclared nfordecls nfuncargs narguses].
+    rewrite list_set_last. reflexivity.
+Qed.
